@@ -142,7 +142,7 @@ pub fn parse_blocks(src: &str) -> Result<Vec<Block>, String> {
             fields.push(Field { kind, serde, ident: ident.to_string(), opt, vec, ty: inner, renamed });
         }
         match lines.next() {
-            Some("") => {}
+            Some("") | None => {}
             other => return Err(format!("expected blank line after struct, found {other:?}")),
         }
         blocks.push(Block { name: name.to_string(), derive, fields, lines: raw });
